@@ -4,6 +4,8 @@
 //	E2 Scalar.v : scalar skeletons of index arithmetic (see scalar.go)
 //	E3 Wrappers.v : the entry-point wrappers of template.go as terms of a small Go fragment
 //	               (see wrappers.go)
+//	E4 SetFuncs.v : the template set's functions of template_sets.go as terms of the same
+//	               fragment, extended (see setfuncs.go)
 //
 // Constructs are located by role (a package var's initialiser, the arguments of the
 // strings.Replace calls in a named function, ...), never by line.  If a construct
@@ -447,13 +449,16 @@ func main() {
 	tables := genTables(p)
 	scalar := genScalar(p)
 	wrappers := genWrappers(p)
+	setfuncs := genSetFuncs(p)
 
 	if len(problems) > 0 {
 		for _, s := range problems {
 			fmt.Fprintln(os.Stderr, "go2v: PROBLEM:", s)
 		}
 	}
-	for name, content := range map[string]string{"Tables.v": tables, "Scalar.v": scalar, "Wrappers.v": wrappers} {
+	outputs := [][2]string{{"Tables.v", tables}, {"Scalar.v", scalar}, {"Wrappers.v", wrappers}, {"SetFuncs.v", setfuncs}}
+	for _, o := range outputs {
+		name, content := o[0], o[1]
 		ch, err := writeIfChanged(filepath.Join(*out, name), []byte(content))
 		if err != nil {
 			fmt.Fprintln(os.Stderr, "go2v:", err)
